@@ -814,6 +814,21 @@ pub fn c16_state(ctx: &Ctx, tag: &str, st: &StateSpec, perms: Perms, seed: u64) 
     History { property: "C16".into(), seed, label: format!("started from {tag}, then reopened"), steps }
 }
 
+/// C16 on the directory the baseline build of the tool leaves: that build starts (twice when
+/// `twice`), then this tree starts and is asked every fact's own words, then again.
+pub fn c16_after_base(ctx: &Ctx, perms: Perms, twice: bool, seed: u64) -> History {
+    let own = |slot: usize| Op::OwnWords { slot, perms, only: None, again: None };
+    let mut b = ctx.session(1, vec![], vec![Op::Open { slot: 0, mode: Mode::Disk, plan: Plan::default() }]);
+    b.base = true;
+    let mut steps = vec![Step::Start { session: b.clone() }];
+    if twice {
+        steps.push(Step::Start { session: b });
+    }
+    steps.push(Step::Start { session: ctx.session(1, vec![], vec![Op::Open { slot: 0, mode: Mode::Disk, plan: Plan::default() }, own(0)]) });
+    steps.push(Step::Start { session: ctx.session(1, vec![], vec![Op::Open { slot: 0, mode: Mode::Disk, plan: Plan::default() }, own(0)]) });
+    History { property: "C16".into(), seed, label: "a directory left by the baseline build of the tool, then this tree, then reopened".into(), steps }
+}
+
 /// C16 on a handle that stays in use while another open in the same process recovers the directory.
 pub fn c16_beside(ctx: &Ctx, rng: &mut Rng, seed: u64) -> History {
     let n = ctx.shipped.docs();
